@@ -6,14 +6,16 @@ Each property contributes a module `SafeHtml.Ops.Cxx` with `model` and `oracle`;
 -/
 import SafeHtml.Ops.C18
 import SafeHtml.Ops.Tmpl
+import SafeHtml.Ops.C20
+import SafeHtml.Ops.C17
 namespace SafeHtml.Driver
 open SafeHtml
 
 def models : List (String → List Bytes → Option String) :=
-  [Ops.C18.model, Ops.Tmpl.model]
+  [Ops.C18.model, Ops.Tmpl.model, Ops.C17.model, Ops.C20.model]
 
 def oracles : List (String → List Bytes → List String → Option String) :=
-  [Ops.C18.oracle, Ops.Tmpl.oracle]
+  [Ops.C18.oracle, Ops.Tmpl.oracle, Ops.C17.oracle, Ops.C20.oracle]
 
 def runModel (op : String) (a : List Bytes) : String :=
   match models.findSome? (fun f => f op a) with
